@@ -4,6 +4,8 @@ File: 61 bytes, k=2, N=4.  Space:
  (a) default schedule: happy in {1..4} x EVERY assignment of a kind in {normal, full, read-only,
      holds share 0, holds shares {0,1}, holds all} to each of S servers, S in {1..4} (quick) /
      {1..5} (thorough);
+ (a') 3 servers, every assignment of {holds all shares and is full, holds share 0 and is full, holds {0,1} and is
+     full, normal} x happy in {1..4} (duplicate pre-existing shares that cannot be complemented);
  (b) representative grids: every schedule with <= d deviations (reordered answers, the 15 s
      query timeouts fired early) and <= f injected faults (error before the call, error after it
      took effect, connection loss) on ANY get_buckets / allocate_buckets / write / close / abort.
@@ -72,9 +74,9 @@ def execute(case, prefix, seed):
     viol, obs = [], {}
     try:
         for i, kd in enumerate(kinds):
-            if kd == "full":
+            if kd == "full" or kd.endswith("+full"):
                 g.servers[i].get_available_space = lambda: 0
-            for sh in HELD.get(kd, []):
+            for sh in HELD.get(kd.split("+")[0], []):
                 lib_imm.place(g, prep, {sh: [i]})
         before = set(lib_imm.ground_truth_shares(g, prep["si"]))
         b = lib_imm.upload(g, prep["data"], explore=True)
@@ -125,7 +127,7 @@ def execute(case, prefix, seed):
                 viol.append(("wrong-upload-error:" + name, b[0][1].getErrorMessage()[:300]))
             if not faulted and not timer_early:
                 # no fault: was a happy layout reachable?  writable normal servers can take anything
-                writable = [i for i, kd in enumerate(kinds) if kd not in ("full", "readonly")]
+                writable = [i for i, kd in enumerate(kinds) if kd not in ("full", "readonly") and not kd.endswith("+full")]
                 pairs = set(before)
                 for sv in writable:
                     for sh in range(N):
@@ -188,6 +190,20 @@ def all_cases(tier):
     return out
 
 
+def held_and_full_cases():
+    """servers that already hold shares AND accept nothing more (full): the same share number on several servers,
+    one server holding many - every assignment of {holds all+full, holds 0+full, holds {0,1}+full, normal} to 3
+    servers (every order: which server is enumerated first matters to a matching computation)"""
+    out = []
+    ks = ["hasall+full", "has0+full", "has01+full", "normal"]
+    for assign in itertools.product(ks, repeat=3):
+        if all(a == "normal" for a in assign):
+            continue
+        for happy in range(1, N + 1):
+            out.append({"kinds": list(assign), "happy": happy})
+    return out
+
+
 def rep_cases():
     out = []
     for kinds in (["normal"] * 4, ["normal", "normal", "readonly", "has01"], ["normal", "full", "has0", "normal"], ["normal", "normal"], ["hasall", "normal", "normal"]):
@@ -206,7 +222,7 @@ def replay(case):
 
 
 def run(tier, seed):
-    cases = all_cases(tier)
+    cases = all_cases(tier) + held_and_full_cases()
     res = common.pmap(chunk, cases, (seed, 0, 0, None))
     n0 = res.counts.get("executions", 0)
     faults = ["error", "error-after", "disconnect"]
